@@ -50,6 +50,7 @@ type Run struct {
 	only     string
 	extra    map[string]interface{}
 	fatal    []string
+	dry      bool // no evidence / replay files, terse output
 }
 
 func (r *Run) RuleDoc(rule, doc string) {
@@ -203,10 +204,12 @@ func (r *Run) Finish(explanation string) int {
 		rnames = append(rnames, k)
 	}
 	sort.Strings(rnames)
-	fmt.Printf("edscheck property=%s tier=%s repo=%s packages=%d functions=%d repo_functions=%d\n",
-		r.Property, r.Tier, r.Prog.Dir, len(r.Prog.All), r.Prog.nFuncs, r.Prog.nRepoFns)
-	for _, k := range rnames {
-		fmt.Printf("  %-10s obligations=%-3d discharged=%-3d %s\n", k, perRule[k][0], perRule[k][1], r.rules[k])
+	if !r.dry {
+		fmt.Printf("edscheck property=%s tier=%s repo=%s packages=%d functions=%d repo_functions=%d\n",
+			r.Property, r.Tier, r.Prog.Dir, len(r.Prog.All), r.Prog.nFuncs, r.Prog.nRepoFns)
+		for _, k := range rnames {
+			fmt.Printf("  %-10s obligations=%-3d discharged=%-3d %s\n", k, perRule[k][0], perRule[k][1], r.rules[k])
+		}
 	}
 	for _, o := range knownHits {
 		fmt.Printf("KNOWN-FINDING: property=%s %s %s %s: %s\n", r.Property, o.Rule, o.Pos, o.Func, knownByKey[o.Key].What)
@@ -215,6 +218,12 @@ func (r *Run) Finish(explanation string) int {
 		fmt.Printf("%s %s %s: need %s — %s [key %s]\n", o.Rule, o.Pos, o.Func, o.Need, o.Detail, o.Key)
 	}
 
+	if r.dry {
+		if len(viol) > 0 {
+			return 1
+		}
+		return 0
+	}
 	// Evidence.
 	evDir := filepath.Join(r.Root, "evidence")
 	_ = os.MkdirAll(evDir, 0o755)
